@@ -35,6 +35,7 @@ type Engine struct {
 	guarded map[string]string
 	needPrivate map[privKey]bool
 	needNode map[privKey]bool
+	sentParamSet map[string]bool
 	sweepCtrs map[*ssa.Function]*Contract
 	writtenKeys map[string]bool // struct-field heap keys stored to through a pointer that is not a fresh allocation of the storing function
 	pkgSpecs map[string]map[string]*SpecFunc
